@@ -22,6 +22,9 @@ import Thanos.Model.Postings
     st.series <kind> <blocks> <mint> <maxt> <matchers> <without> <skip>
     st.names  <kind> <blocks> <start> <end> <matchers> <without>
     st.values <kind> <blocks> <start> <end> <matchers> <without> <label>
+    st.ext <blocks> <new ext> <start> <end> <matchers> <without> <label>   the TSDB store of the first block answers Series
+                              (labels only), LabelNames, LabelValues; SetExtLset(new ext); the three calls again
+                              -> `<series> # <names> # <values> | <series> # <names> # <values>`
     px.series <blocks> <mint> <maxt> <matchers> <without> <skip>     the same three calls through a ProxyStore in front of
     px.names  <blocks> <start> <end> <matchers> <without>            the TSDB store of the first block and the store
     px.values <blocks> <start> <end> <matchers> <without> <label>    gateway of all blocks
@@ -175,6 +178,20 @@ def handleValues (kind blocks mint maxt matchers without label : String) : Strin
     | _, _ => "bad-op"
   | _, _, _ => "bad-op"
 
+def handleExt (blocks newExt mint maxt matchers without label : String) : String :=
+  match parseSpecBlocks blocks, parseLabels newExt, parseReq mint maxt matchers without true, parseNat? label with
+  | some (db :: _), some ext, some r, some l =>
+    let round (s : StoreSpec.TStore) : String :=
+      let sa := match s.series r with
+        | .ok es => "ok " ++ showSeries true es
+        | .invalid => "invalid"
+      let na := "ok " ++ showNats "," (StoreSpec.sortNatsDup (s.labelNames r))
+      let va := "ok " ++ showNats "," (StoreSpec.canonNats (s.labelValues r l))
+      s!"{sa} # {na} # {va}"
+    let s0 := StoreSpec.TStore.new db
+    round s0 ++ " | " ++ round (s0.setExt ext)
+  | _, _, _, _ => "bad-op"
+
 def handleProxy (op blocks mint maxt matchers without : String) (last : String) : String :=
   match parseSpecBlocks blocks, parseReq mint maxt matchers without (op == "px.series" && last == "1") with
   | some bs, some r =>
@@ -291,6 +308,7 @@ def handle : List String → String
     handleLimits kind blocks mint maxt matchers without skip
   | ["st.series", kind, blocks, mint, maxt, matchers, without, skip] =>
     handleSeries kind blocks mint maxt matchers without skip
+  | ["st.ext", blocks, newExt, mint, maxt, matchers, without, label] => handleExt blocks newExt mint maxt matchers without label
   | ["px.series", blocks, mint, maxt, matchers, without, skip] => handleProxy "px.series" blocks mint maxt matchers without skip
   | ["px.names", blocks, mint, maxt, matchers, without] => handleProxy "px.names" blocks mint maxt matchers without ""
   | ["px.values", blocks, mint, maxt, matchers, without, label] => handleProxy "px.values" blocks mint maxt matchers without label
